@@ -179,47 +179,69 @@ func (x *runner) pickFor(cmd string) pv {
 
 var two30 = big.NewRat(1<<30, 1)
 
-// callClass computes the input class of a call from the command and its
-// argument/option values.  Defect-prone inputs get their own narrow class.
-func callClass(cmd string, args []pv, optVals []pv) string {
+// callFeatures lists the defect-prone features of a call, computed from the
+// command and its argument/option values only.  Each has its own narrow class.
+func callFeatures(cmd string, args []pv, optVals []pv) []string {
+	var fs []string
 	for _, a := range append(append([]pv{}, args...), optVals...) {
 		if a.Src == "$nil" {
-			return "nil-argument"
+			fs = append(fs, "nil-argument")
+			break
 		}
 	}
 	switch cmd {
 	case "math:pow":
 		if len(args) == 2 && args[0].Exact && args[1].Exact && args[0].Rat != nil && args[1].Rat != nil &&
 			args[0].Rat.Sign() == 0 && args[1].Rat.IsInt() && args[1].Rat.Sign() < 0 {
-			return "math-pow-zero-negative"
+			fs = append(fs, "math-pow-zero-negative")
 		}
 	case "file:is-tty":
 		if len(args) == 1 && args[0].Rat != nil && args[0].Rat.IsInt() && args[0].Rat.Sign() < 0 {
-			return "file-is-tty-negative-fd"
+			fs = append(fs, "file-is-tty-negative-fd")
 		}
 	case "read-bytes":
 		if len(args) == 1 && args[0].Rat != nil && args[0].Rat.IsInt() && (args[0].Rat.Cmp(two30) >= 0 || args[0].Rat.Sign() < 0) {
-			return "read-bytes-bad-count"
+			fs = append(fs, "read-bytes-bad-count")
 		}
 	case "edit:match-subseq":
 		for _, a := range args {
 			if (strings.Contains(a.Src, `\x`) && !strings.Contains(a.Src, `\x00`)) || strings.Contains(a.Src, "�") {
-				return "match-subseq-invalid-utf8"
+				fs = append(fs, "match-subseq-invalid-utf8")
+				break
 			}
 		}
 	case "run-parallel":
 		for _, a := range args {
 			if a.Kind == "fn" && !a.Nullary {
-				return "run-parallel-callee-error"
+				fs = append(fs, "run-parallel-callee-error")
+				break
 			}
 		}
 	}
-	return "call:" + cmd
+	return fs
+}
+
+// classOf: a program is generated with at most one defect-prone feature, so
+// that a crash is never filed under the class of another feature.
+func classOf(features []string, dflt string) string {
+	if len(features) > 0 {
+		return features[0]
+	}
+	return dflt
 }
 
 type arity struct{ lo, hi int } // hi == -1: unbounded
 
 func (x *runner) genCall(cmd string, ar arity) (string, string) {
+	for {
+		prog, features := x.genCall1(cmd, ar)
+		if len(features) <= 1 {
+			return prog, classOf(features, "call:"+cmd)
+		}
+	}
+}
+
+func (x *runner) genCall1(cmd string, ar arity) (string, []string) {
 	r := x.c.Rand
 	n := 0
 	switch {
@@ -263,10 +285,10 @@ func (x *runner) genCall(cmd string, ar arity) (string, string) {
 	// plain form, so that a panic is recovered in the child without a restart.
 	for _, a := range append(append([]pv{}, args...), optVals...) {
 		if !smallOnly(a) {
-			return prog + " | verif:sink", callClass(cmd, args, optVals)
+			return prog + " | verif:sink", callFeatures(cmd, args, optVals)
 		}
 	}
-	return prog, callClass(cmd, args, optVals)
+	return prog, callFeatures(cmd, args, optVals)
 }
 
 func run(c *reg.Ctx) {
@@ -547,6 +569,15 @@ func (x *runner) genRedir(allowBad bool) redirInfo {
 }
 
 func (x *runner) genRedirForm() (string, string) {
+	for {
+		prog, features := x.genRedirForm1()
+		if len(features) <= 1 {
+			return prog, classOf(features, "redir")
+		}
+	}
+}
+
+func (x *runner) genRedirForm1() (string, []string) {
 	r := x.c.Rand
 	cmd := redirCmds[r.Intn(len(redirCmds))]
 	n := 1 + r.Intn(3)
@@ -565,21 +596,18 @@ func (x *runner) genRedirForm() (string, string) {
 		outFromIn = outFromIn || (ri.dstOut && ri.fromInput)
 		self1 = self1 || ri.self1
 	}
-	class := "redir"
-	switch {
-	case neg:
-		class = "redir-negative-fd"
-	case huge:
-		class = "redir-huge-fd"
-	case (piped || cmdPiped) && stdinRedir:
-		class = "pipe-stdin-redirected"
-	case outPiped && self1:
-		class = "pipe-output-self-redirect"
-	case stdinFromOut:
-		class = "stdin-from-output-port"
-	case outFromIn:
-		class = "value-output-to-input-port"
+	var features []string
+	add := func(c bool, name string) {
+		if c {
+			features = append(features, name)
+		}
 	}
+	add(neg, "redir-negative-fd")
+	add(huge, "redir-huge-fd")
+	add((piped || cmdPiped) && stdinRedir, "pipe-stdin-redirected")
+	add(outPiped && self1, "pipe-output-self-redirect")
+	add(stdinFromOut, "stdin-from-output-port")
+	add(outFromIn, "value-output-to-input-port")
 	prog := cmd + " " + strings.Join(parts, " ")
 	if piped {
 		prog = "put a | " + prog
@@ -587,7 +615,7 @@ func (x *runner) genRedirForm() (string, string) {
 	if outPiped {
 		prog += " | verif:sink"
 	}
-	return prog, class
+	return prog, features
 }
 
 // ---- special forms with odd shapes ----------------------------------------
@@ -610,10 +638,21 @@ func (x *runner) genSpecial() (string, string) {
 	sb.WriteString(specialHeads[r.Intn(len(specialHeads))])
 	n := r.Intn(7)
 	class := "special-form"
+	bg, redir := false, false
 	for i := 0; i < n; i++ {
 		t := soup[r.Intn(len(soup))]
-		if t == "&" {
+		switch t {
+		case "&":
+			if redir {
+				continue // one defect-prone feature per program
+			}
+			bg = true
 			class = "background-job"
+		case "2>&1", ">f", "<":
+			if bg {
+				continue
+			}
+			redir = true
 		}
 		sb.WriteString(" " + t)
 	}
